@@ -68,4 +68,5 @@ b420852 C13
 9244933 C04
 e2657c3 C04
 a36e732 C03
+d9b8bd6 C15
 LIST
